@@ -7,7 +7,9 @@ package main
 // model driver `cron`. K2 (c20_sched.go): the timer-less cron object against the driver `cronsched`.
 
 import (
+	"encoding/json"
 	"fmt"
+	"os"
 	"sort"
 	"strconv"
 	"strings"
@@ -25,6 +27,10 @@ func runC20(c *Ctx) {
 		"non-trivial = minute, hour and month match so that the day rule decides, distinct by (spec text, civil fields). " +
 		"Parser stream: valid ASTs, ASTs invalid in exactly one place, character-level mutations, wrong field counts, macros. " +
 		"K2: operation sequences on the real cron object (timer stopped, tick body run on demand); non-trivial = sequence in which at least one job was spooled"
+	if c.Replay != "" {
+		c20Replay(c)
+		return
+	}
 	c20K1(c)
 	for _, p := range c20parts {
 		p(c)
@@ -32,6 +38,75 @@ func runC20(c *Ctx) {
 }
 
 var c20parts []func(*Ctx)
+
+// c20Replay re-executes a replay file written by ./check for a K1 case (spec [+ zone + time]); K2 replays carry
+// the operation list for reading only, because the scenario is anchored on the wall clock it ran at
+func c20Replay(c *Ctx) {
+	r := c.R
+	b, err := os.ReadFile(c.Replay)
+	if err != nil {
+		r.Disagree("replay", err.Error(), nil)
+		return
+	}
+	var f struct {
+		Signature string                 `json:"signature"`
+		Replay    map[string]interface{} `json:"replay"`
+	}
+	if err := json.Unmarshal(b, &f); err != nil {
+		r.Disagree("replay", err.Error(), nil)
+		return
+	}
+	text, ok := f.Replay["spec"].(string)
+	if !ok {
+		r.Note("replay: no executable case in %s (K2 scenario or obligation); its operation list is in the file", c.Replay)
+		fmt.Fprintln(os.Stderr, "replay: nothing executable in this file")
+		return
+	}
+	impl, perr := c20parse(r, text)
+	outs, err := Model("cron", []string{"parse " + c20text(text)})
+	if err != nil {
+		r.Disagree("cron.driver", err.Error(), nil)
+		return
+	}
+	fmt.Fprintf(os.Stderr, "replay: spec %q: cronParseSpec error=%v, model: %s\n", text, perr, outs[0])
+	if (perr != nil) != (outs[0] == "err") {
+		r.Disagree("K1 compileText ~ cronParseSpec", fmt.Sprintf("text %q: model %q, implementation error %v", text, outs[0], perr), f.Replay)
+	}
+	zn, _ := f.Replay["zone"].(string)
+	ts, _ := f.Replay["time"].(string)
+	if perr != nil || ts == "" {
+		return
+	}
+	loc := time.UTC
+	if zn != "" {
+		if l, err := time.LoadLocation(zn); err == nil {
+			loc = l
+		}
+	}
+	t, err := time.Parse(time.RFC3339, ts)
+	if err != nil {
+		r.Disagree("replay", err.Error(), nil)
+		return
+	}
+	t = t.In(loc)
+	got := impl.IsRunAt(t)
+	mo, err := Model("cron", []string{fmt.Sprintf("at %s %s", c20text(text), c20civil(t))})
+	if err != nil {
+		r.Disagree("cron.driver", err.Error(), nil)
+		return
+	}
+	fmt.Fprintf(os.Stderr, "replay: %q at %s: IsRunAt=%v, model <IsRunAt><denote>=%s\n", text, t.Format("2006-01-02 15:04 Mon MST"), got, mo[0])
+	r.Case("replay", true)
+	if len(mo[0]) == 2 {
+		den := mo[0][1] == '1'
+		if got != den {
+			r.Violation(f.Signature, fmt.Sprintf("spec %q at %s: crontab rules (model denotation) say %v, IsRunAt says %v", text, t.Format(time.RFC3339), den, got), f.Replay)
+		}
+		if (mo[0][0] == '1') != got {
+			r.Disagree("K1 specIsRunAt ~ cronSpecMask.IsRunAt", fmt.Sprintf("spec %q at %s: model %c, implementation %v", text, t.Format(time.RFC3339), mo[0][0], got), f.Replay)
+		}
+	}
+}
 
 // ---------------------------------------------------------------------------
 // AST
@@ -706,7 +781,7 @@ func c20K1(c *Ctx) {
 		r.CountN("zones.transitions."+n, len(z.dst[i]))
 	}
 	// ---- matcher: IsRunAt vs model vs oracle ---------------------------------
-	nspec := c.N(1500, 30000)
+	nspec := c.N(1500, 120000)
 	per := c.N(40, 64)
 	var cases []c20k1case
 	var lines []string
@@ -821,7 +896,7 @@ func c20K1Parser(c *Ctx) {
 		why   string
 	}
 	var pc []pcase
-	n := c.N(1500, 40000)
+	n := c.N(1500, 150000)
 	for i := 0; i < n; i++ {
 		s := c20spec(c.Rng)
 		pc = append(pc, pcase{s.String(), 1, "valid"})
